@@ -208,14 +208,30 @@ func headerPart(s string) string {
 
 // freshView opens a new session, EXAMINEs the mailbox and fetches everything.
 func freshView(s *srv.Server, user int, mailbox string, withBody bool) (*BoxView, error) {
+	_, before, _ := s.G.VerifPending(s.Users[user].ID)
+
 	c, err := s.Login("fresh", user)
 	if err != nil {
 		return nil, err
 	}
 
-	defer c.Close()
+	v, err := viewOn(c, mailbox, withBody, true)
 
-	return viewOn(c, mailbox, withBody, true)
+	c.Close()
+
+	// Wait until the server has torn the session down. Tearing a session down reads the
+	// snapshots of the user's other sessions without synchronisation (a data race that is C19's
+	// subject and kills the process when it hits a concurrent map write); sequential checks must
+	// not overlap it with their next command.
+	for i := 0; i < 5000; i++ {
+		if _, now, _ := s.G.VerifPending(s.Users[user].ID); now <= before {
+			break
+		}
+
+		time.Sleep(100 * time.Microsecond)
+	}
+
+	return v, err
 }
 
 // viewOn EXAMINEs (or uses the current selection of) a connection and fetches everything.
